@@ -61,6 +61,12 @@ thread_local! {
     static THR_EPOCH: Cell<u32> = Cell::new(u32::MAX);
 }
 
+/// True on its first call in the current run epoch, false afterwards (a jump that an operand takes exactly once per run).
+pub fn once_per_run() -> bool {
+    static LAST: AtomicU32 = AtomicU32::new(0);
+    let cur = EPOCH.load(Ordering::SeqCst);
+    LAST.swap(cur, Ordering::SeqCst) != cur
+}
 /// Starts a new run epoch (called by the executors before every run).
 pub fn new_epoch() {
     EPOCH.fetch_add(1, Ordering::SeqCst);
